@@ -98,6 +98,12 @@ func (buf *BipBuffer) Commit(n int) []byte {
 	if toCommit > n {
 		toCommit = n
 	}
+	if toCommit == 0 {
+		// Nothing was claimed so there is nothing to commit. Leave an empty buffer at offset 0.
+		buf.claimHead = 0
+		buf.claimTail = 0
+		return nil
+	}
 	var head, tail int
 	if buf.Committed() == 0 {
 		buf.head = buf.claimHead
